@@ -125,6 +125,7 @@ type loopInfo struct {
 
 // Exec verifies one function.
 type Exec struct {
+	chanHits map[string]int // before_send / assume_recv clause -> number of communications it applied to
 	atReturnHits map[int]int // at_return clause index -> number of returns it was evaluated at
 	callExcept []string // the same for the call being havocked for
 	loopExcept []string // struct types untouched by the "write everything" calls of the loop being cut
